@@ -20,6 +20,7 @@ RULE = ("(1) Exhaustive small scope: a universe of labelled nodes carrying two e
         "state machine over 8-12 nodes and three names with queries interleaved.  Non-trivial: a (state, operation) pair "
         "that shifts or replaces a node with >= 2 siblings; distinct pairs counted (exhaustive part by construction).")
 RULE += ('  The state machine also copies subtrees (the copy joins the forest as a tree of its own): later edits on either side stay on that side.')
+RULE += ('  Failing edits include a replace whose old child is a FORMER child of the receiver (its parent link still points there).')
 ASSUMPTIONS = [
     "a node is attached only when it is listed nowhere and is not an ancestor of the target (quantifier)",
     "parent links of detached nodes are not part of the tree (remove / replace leave them stale) and are not checked; "
